@@ -19,8 +19,9 @@ import GcArena.Model.Conv
                    weak pointer); `Conv.scenarioState` maps (phase, age) to live / condemned / dead
         Answer (independent of the schedule, and of phase and age except through that state):
           `ok final=<s|w>/<thin|fat>/<unit|slice|str>/<orig|unit|uns> words=<1|2> dlen=<n|vt|->
-              same=1 state=<live|condemned|dead> keeps=<0|1> stash=<0|1> up_after=<some|none|na>  (`upgrade` of the rooted converted weak pointer once the value is destructed)
-              drops=<at alloc>+<at destruction>`
+              same=1 state=<live|condemned|dead> read=<original value tokens read through the
+              final pointer|-> keeps=<0|1> stash=<0|1> up_after=<some|none|na>  (`upgrade` of the rooted converted weak pointer once the value is destructed)
+              drops=<at alloc>+<at destruction> as=<name of the type whose destructor ran|->`
           `upgrade-none <index of the refused upgrade> state=… drops=…`
           `ill-typed <index of the first ill-typed step>` | `bad-placement`
     ill <target> <chain> <s|w>  Answer as for `case` without the placement-dependent fields
@@ -123,12 +124,31 @@ def firstFailure (a : Alloc) : Chain → PtrVal → Nat → Option Nat
     | some q => firstFailure a ch q (k + 1)
     | none => some k
 
+/-- Name of the type whose destructor the harness logs for a target (`-`: nothing to log). -/
+def dropTagName : Target → String
+  | .sized | .dyn => "Payload"
+  | .array n | .slice n => if n = 0 then "-" else "Elem"
+  | .str _ => "-"
+  | .zst a => s!"Z{a}"
+  | .zcached a _ => s!"ZC{a}"
+
+/-- Number of original value tokens a dereference of `q` reads (`-`: cannot be dereferenced). -/
+def showRead (a : Alloc) (q : PtrVal) : String :=
+  let s := store a 0 (List.range a.target.elemCount)
+  let q' := if q.weak && a.upgradable then { q with weak := false } else q
+  match deref s q' with
+  | some (.whole _ ts) | some (.dynOf _ ts) | some (.sliceOf ts) =>
+    -- all of them, or the view is not the original value
+    if ts = s.tokens then toString ts.length else "bad"
+  | some .unit => "0"
+  | none => "-"
+
 def answerCase (t : Target) (ch : Chain) (placement : Option String) (ph : Phase) (age : Age) : String :=
   let st := scenarioState ph age
   let a : Alloc := ⟨0, t, st.1, st.2⟩
   let p := if age = .ww then initWeak a else initPtr a
   let stateS := if !st.1 then "dead" else if st.2 then "condemned" else "live"
-  let drops := s!"drops={t.dropsAtAlloc}+{t.dropsAtDestruct}"
+  let drops := s!"drops={t.dropsAtAlloc}+{t.dropsAtDestruct} as={dropTagName t}"
   match firstIllTyped t ch p 0 with
   | some k => s!"ill-typed {k}"
   | none =>
@@ -161,7 +181,7 @@ def answerCase (t : Target) (ch : Chain) (placement : Option String) (ph : Phase
                | none => "none"
                | some _ => "some")
             else "na"
-          s!"ok {shape} state={stateS} keeps={if keeps && st.1 then 1 else 0} " ++
+          s!"ok {shape} state={stateS} read={showRead a q} keeps={if keeps && st.1 then 1 else 0} " ++
           s!"stash={if stashable then 1 else 0} up_after={up} {drops}"
 
 /-- A zero-sized type of the aliasing grid: `z:<align>` / `zn:<align>` (a unit struct with /
